@@ -421,6 +421,19 @@ pub fn run(tier: Tier, replay: Option<&str>) {
                             cases.push(mk(vec![], c, true, false));
                         }
                     }
+                    if base == "fresh" && !biased && !otaa {
+                        // sessions whose downlink counter is past 16 bits (and crosses an epoch with this very frame):
+                        // requests carried encrypted on port 0 are decrypted with the full counter
+                        for start in [0x1_0005u32, 0x2_FFFF] {
+                            let mut hd = dev.clone();
+                            hd.fcnt_down = Some(Some(start));
+                            for (i, c) in singles.iter().enumerate() {
+                                if i % if reduce { 211 } else { 13 } == 0 {
+                                    cases.push(Case { dev: hd.clone(), ..mk(vec![], c, true, false) });
+                                }
+                            }
+                        }
+                    }
                     if base == "fresh" && !biased {
                         for c in &budget {
                             cases.push(mk(vec![], c, true, false));
@@ -436,8 +449,18 @@ pub fn run(tier: Tier, replay: Option<&str>) {
                                 Cmd { name: "NewChannelReq-redefine3".into(), bytes: vec![0x07, 3, fb[0], fb[1], fb[2], 0x50] }
                             })
                             .collect();
+                        // ... and a DlChannelReq that names the channel's own uplink frequency: how a network undoes a
+                        // remapping (the prior commands remap channel 0 and channel 3)
+                        let restore: Vec<Cmd> = [(0u8, crate::refregion::default_channels(region).first().copied().unwrap_or(0)), (3, cmds::freqs(region)[3])]
+                            .iter()
+                            .map(|(i, f)| {
+                                let fb = cmds::freq_bytes(*f);
+                                Cmd { name: "DlChannelReq-restore".into(), bytes: vec![0x0A, *i, fb[0], fb[1], fb[2]] }
+                            })
+                            .collect();
                         if !is_fixed(region) {
                             judged.extend(redefine.iter());
+                            judged.extend(restore.iter());
                         }
                         for (_, p1) in &dng {
                             for c in &judged {
@@ -447,7 +470,7 @@ pub fn run(tier: Tier, replay: Option<&str>) {
                                 for (i, c) in judged.iter().enumerate() {
                                     // (thorough judges a larger set after one prior; after two priors every fifth
                                     // of it plus the redefinitions)
-                                    if th && i % 5 != 0 && !c.name.starts_with("NewChannelReq-redefine") {
+                                    if th && i % 5 != 0 && !c.name.starts_with("NewChannelReq-redefine") && !c.name.starts_with("DlChannelReq-restore") {
                                         continue;
                                     }
                                     cases.push(mk(vec![p1.clone(), p2.clone()], c, false, false));
@@ -503,7 +526,7 @@ pub fn run(tier: Tier, replay: Option<&str>) {
         "samples": samples,
         "evaluations": ctx.evals(),
         "distinct_nontrivial": nontrivial.load(Ordering::Relaxed),
-        "rule": "each case is a history on a fresh real device: base state (fresh / CFList join / sparse mask / extra channels / high data rate), 0-2 prior command downlinks, the judged downlink (FOpts or port 0), then uplinks and an acknowledging downlink. Judged downlinks: the full value domain of LinkADRReq (DR x TXPower x ChMaskCntl x mask patterns x NbTrans x RFU bit), LinkADRReq blocks, RXParamSetupReq (all 256 DLSettings x frequency set), RXTimingSetupReq (all 256), NewChannelReq (index x frequency set x DrRange bytes), DlChannelReq, DevStatusReq; k x DevStatusReq followed by two further requests (answer budget at every position); Class C deliveries. non-trivial = judged stream contains at least one request",
+        "rule": "each case is a history on a fresh real device: base state (fresh / CFList join / sparse mask / extra channels / high data rate), 0-2 prior command downlinks, the judged downlink (FOpts or port 0), then uplinks and an acknowledging downlink. Judged downlinks: the full value domain of LinkADRReq (DR x TXPower x ChMaskCntl x mask patterns x NbTrans x RFU bit), LinkADRReq blocks, RXParamSetupReq (all 256 DLSettings x frequency set), RXTimingSetupReq (all 256), NewChannelReq (index x frequency set x DrRange bytes), DlChannelReq, DevStatusReq; k x DevStatusReq followed by two further requests (answer budget at every position); Class C deliveries; port-0 requests in sessions whose downlink counter is beyond 16 bits. non-trivial = judged stream contains at least one request",
         "regions": regions,
         "exhaustive": true,
     });
